@@ -26,6 +26,7 @@ type Prog struct {
 	named   map[string]*types.Named
 	ifaceMethods map[string]*types.Func // "core.Limit.OnSample"
 	findings map[string]*KnownFinding // open known findings by obligation name
+	renameNotes []string
 }
 
 var repoPkgDirs = []string{"./core", "./strategy", "./strategy/matchers", "./limit", "./limit/functions", "./measurements",
@@ -99,6 +100,7 @@ func loadProg(repo string, dirs []string) (*Prog, error) {
 	}
 	p.specs = specs
 	specDefines = specs.Defines
+	p.renameNotes = p.aliasRenamed()
 	p.findings = map[string]*KnownFinding{}
 	kf := loadKnownFindings(verifDir)
 	for i := range kf.Findings {
@@ -131,9 +133,79 @@ func collectNamed(p *Prog, tp *types.Package) {
 // fnName renders an ssa function name relative to the module:
 // "(*limit.AIMDLimit).OnSample", "limit.NewAIMDLimit", "limit.NewVegasLimitWithRegistry$5".
 func fnName(f *ssa.Function) string {
+	if a, ok := fnAlias[f]; ok {
+		return a
+	}
 	s := f.String()
 	s = strings.ReplaceAll(s, modulePath+"/", "")
 	return s
+}
+
+// fnAlias: an unexported function or method that was renamed keeps the contract written for its
+// old name (and the obligation names of the accepted baseline). Filled by aliasRenamed.
+var fnAlias = map[*ssa.Function]string{}
+
+// aliasRenamed: for every contract whose target no longer exists, look for exactly one function in
+// the same package with the same receiver type and an identical signature that is unexported,
+// carries no contract of its own and whose name no contract mentions. If there is one, it is the
+// renamed target: it (and its closures) answer to the old name from here on.
+func (p *Prog) aliasRenamed() []string {
+	var notes []string
+	mentioned := func(n string) bool {
+		_, ok := p.specs.Funcs[n]
+		return ok
+	}
+	for old := range p.specs.Funcs {
+		if _, ok := p.fns[old]; ok || isAssumedContract(p, old) || strings.Contains(old, "$") {
+			continue
+		}
+		// "(*limit.VegasLimit).shouldProbe" or "limit.nextProbeCountdown"
+		i := strings.LastIndex(old, ".")
+		if i < 0 {
+			continue
+		}
+		prefix, base := old[:i+1], old[i+1:]
+		if base == "" || (base[0] >= 'A' && base[0] <= 'Z') {
+			continue // exported: a rename is an API change, not a refactoring
+		}
+		// signature of the old function is unknown (it is gone); candidates must be unique by
+		// prefix (same package / receiver), unexported, without contract
+		var cands []*ssa.Function
+		for n, f := range p.fns {
+			if !strings.HasPrefix(n, prefix) || strings.Contains(n[len(prefix):], ".") || strings.Contains(n, "$") {
+				continue
+			}
+			b := n[len(prefix):]
+			if b == "" || (b[0] >= 'A' && b[0] <= 'Z') || mentioned(n) || f.Synthetic != "" {
+				continue
+			}
+			if params, ok := baselineParamsOf(old); ok {
+				// same number and types of parameters as recorded when the contract was accepted
+				if len(params) != len(f.Params) {
+					continue
+				}
+			}
+			cands = append(cands, f)
+		}
+		if len(cands) != 1 {
+			continue
+		}
+		f := cands[0]
+		newName := fnName(f)
+		fnAlias[f] = old
+		delete(p.fns, newName)
+		p.fns[old] = f
+		// closures and bound-method wrappers of the renamed function follow it
+		for n, g := range p.fns {
+			if strings.HasPrefix(n, newName+"$") {
+				fnAlias[g] = old + n[len(newName):]
+				delete(p.fns, n)
+				p.fns[old+n[len(newName):]] = g
+			}
+		}
+		notes = append(notes, "contract of "+old+" applied to "+newName+" (unexported function renamed; unique candidate with the same receiver and arity)")
+	}
+	return notes
 }
 
 func (p *Prog) typeID(t types.Type) int {
